@@ -1238,12 +1238,21 @@ class Table:
         manifest (list) raises instead of returning partial/empty results -
         readers must be able to distinguish "empty table" from "broken table".
         """
-        snapshot = self.current_snapshot()
+        # Resolve the snapshot AND judge consistency from ONE metadata read. Two
+        # separate refreshes can straddle a concurrent commit: the first sees the
+        # still-empty table, the second the freshly committed snapshot id, and a
+        # healthy table would be reported as "inconsistent".
+        metadata = self.metadata_manager.refresh()
+        snapshot = None
+        if metadata is not None and metadata.current_snapshot_id is not None:
+            for candidate in metadata.snapshots:
+                if candidate.snapshot_id == metadata.current_snapshot_id:
+                    snapshot = candidate
+                    break
         if not snapshot:
             # An unset current_snapshot_id means "empty table". A SET id that
             # resolves to nothing means the metadata is inconsistent - returning
             # [] there would report a broken table as an empty one (#48).
-            metadata = self.metadata_manager.refresh()
             current_id = metadata.current_snapshot_id if metadata else None
             if current_id is not None and current_id != -1:
                 raise RuntimeError(
